@@ -24,7 +24,7 @@ import (
 	"gonum.org/v1/gonum/mat"
 	golp "gonum.org/v1/gonum/optimize/convex/lp"
 
-	"verif/harness/internal/core"
+	"gonum.org/v1/gonum/verifharness/internal/core"
 )
 
 type only struct {
@@ -56,6 +56,7 @@ type lpCase struct {
 
 // defaults, overridable by replay arguments watchdog=<duration> maxhangs=<n>
 var (
+	sigTag   = ""
 	watchdog = 10 * time.Second
 	maxHangs = 8
 )
@@ -164,7 +165,7 @@ func (s *state) simplex(c *lpCase, variant string, cv []float64, A *mat.Dense, b
 	} else {
 		shape += ":nondegenerate"
 	}
-	sig := func(kind string) string { return "lp:simplex:" + variant + ":" + kind + shape }
+	sig := func(kind string) string { return "lp:simplex:" + variant + ":" + kind + shape + sigTag }
 	desc := fmt.Sprintf("spec: %s", c.Cls)
 	if c.Cls == "optimal" {
 		desc += fmt.Sprintf(" value %d/%d", c.Num, c.Den)
@@ -341,6 +342,10 @@ func replay(in *core.Lines, args []string, seed int64, sum *core.Summary) error 
 				return err
 			}
 			watchdog = d
+		case strings.HasPrefix(a, "tag="):
+			// appended to every failure signature of this replay (used to keep the known cycling
+			// finding confined to the classic cycling examples)
+			sigTag = ":" + a[len("tag="):]
 		case strings.HasPrefix(a, "maxhangs="):
 			if _, err := fmt.Sscan(a[len("maxhangs="):], &maxHangs); err != nil {
 				return err
